@@ -4,6 +4,7 @@ mod genx;
 mod head;
 mod hostile;
 mod mp;
+mod mpart;
 mod proxy;
 mod sendloop;
 mod transport;
@@ -131,6 +132,7 @@ fn run_all(kind: &str, input: &str, outdir: &str, threads: usize, budget: Durati
                             "hostile" => hostile::run(&sc),
                             "loop" => sendloop::run(&sc),
                             "proxy" => proxy::run(&sc),
+                            "mpart" => mpart::run(&sc),
                             "charset" => {
                                 if util::gs(&sc, "kind") == "charset" {
                                     let thorough = std::env::var("VERIF_TIER").map(|t| t == "thorough").unwrap_or(false);
@@ -211,6 +213,7 @@ fn main() {
             let seed: u64 = arg(&args, "--seed").and_then(|s| s.parse().ok()).unwrap_or(1);
             let tier = arg(&args, "--tier").unwrap_or("quick".into());
             let scs: Vec<String> = match family.as_str() {
+                "mpart" => mpart::generate(seed, &tier).into_iter().map(|v| v.to_string()).collect(),
                 "c07_req" => sendloop::generate(seed, &tier).into_iter().map(|v| v.to_string()).collect(),
                 "charset_split" => charset::generate(seed, &tier).into_iter().map(|v| v.to_string()).collect(),
                 "hostile" => hostile::generate(seed, &tier).into_iter().map(|v| v.to_string()).collect(),
